@@ -4,7 +4,7 @@ import (
 	"fmt"
 	"reflect"
 	"sort"
-	"strings"
+	"unicode"
 )
 
 // rejectAmbiguousKeys panics when a map that is about to be decoded into a struct carries two keys that differ only in
@@ -37,7 +37,7 @@ func rejectAmbiguousKeys(src interface{}, target reflect.Type) {
 		sort.Strings(keys)
 		seen := make(map[string]string, len(keys))
 		for _, k := range keys {
-			folded := strings.ToLower(k)
+			folded := foldKey(k)
 			if other, taken := seen[folded]; taken {
 				panic(fmt.Errorf("keys '%s' and '%s' differ only in letter case", other, k))
 			}
@@ -45,7 +45,7 @@ func rejectAmbiguousKeys(src interface{}, target reflect.Type) {
 		}
 		for i := 0; i < target.NumField(); i++ {
 			field := target.Field(i)
-			if key, ok := seen[strings.ToLower(field.Name)]; ok {
+			if key, ok := seen[foldKey(field.Name)]; ok {
 				rejectAmbiguousKeys(value.MapIndex(reflect.ValueOf(key).Convert(value.Type().Key())).Interface(), field.Type)
 			}
 		}
@@ -64,4 +64,21 @@ func rejectAmbiguousKeys(src interface{}, target reflect.Type) {
 			rejectAmbiguousKeys(value.MapIndex(k).Interface(), target.Elem())
 		}
 	}
+}
+
+// foldKey maps a key to a canonical representative of its simple case-folding class, so that two keys get the same
+// result exactly when strings.EqualFold (which the decoder uses) holds for them: 's', 'S' and the long s U+017F, or 'k',
+// 'K' and the Kelvin sign U+212A, fold together, which strings.ToLower does not guarantee.
+func foldKey(key string) string {
+	folded := make([]rune, 0, len(key))
+	for _, r := range key {
+		smallest := r
+		for f := unicode.SimpleFold(r); f != r; f = unicode.SimpleFold(f) {
+			if f < smallest {
+				smallest = f
+			}
+		}
+		folded = append(folded, smallest)
+	}
+	return string(folded)
 }
